@@ -30,12 +30,12 @@ SVals(inp, cell) == [inp |-> [i \in 1..Len(inp) |-> [f \in 1..2 |-> inp[i][f].v]
 ModeProps(m) ==
     CASE m = "pardag" -> {"C16"}
       [] m = "parmemo" -> {"C17"}
-      [] m \in {"parfix", "parfb"} -> {"C18"}
+      [] m \in {"parfix", "parfb", "parnest3"} -> {"C18"}
       [] m = "parpcycle" -> {"C14"}
       [] m = "parintern" -> {"C08"}
       [] m \in {"parstruct", "paralloc"} -> {"C24"}
-      [] m \in {"parwrite", "parwritefix"} -> {"C20"}
-      [] m \in {"parcancel", "parcancelfix"} -> {"C21"}
+      [] m \in {"parwrite", "parwritefix", "parwritenest"} -> {"C20"}
+      [] m \in {"parcancel", "parcancelfix", "parcancelnest"} -> {"C21"}
       [] m = "parpanic" -> {"C22"}
       [] OTHER -> {"C16"}
 
